@@ -1942,10 +1942,21 @@ func (query *Query) IsDual() bool {
 }
 
 func RegexComparison(left any, pattern string) (bool, error) {
-	regExpr := strings.ReplaceAll(strings.ToLower(pattern), "_", ".")
-	regExpr = strings.ReplaceAll(regExpr, "%", ".*")
-	regExpr = "^" + regExpr + "$"
-	return regexp.Match(regExpr, []byte(strings.ToLower(fmt.Sprintf("%v", left))))
+	// only % and _ are wildcards; every other character of the pattern stands for itself
+	var regExpr strings.Builder
+	regExpr.WriteString("(?s)^")
+	for _, r := range strings.ToLower(pattern) {
+		switch r {
+		case '%':
+			regExpr.WriteString(".*")
+		case '_':
+			regExpr.WriteString(".")
+		default:
+			regExpr.WriteString(regexp.QuoteMeta(string(r)))
+		}
+	}
+	regExpr.WriteString("$")
+	return regexp.Match(regExpr.String(), []byte(strings.ToLower(fmt.Sprintf("%v", left))))
 }
 
 func RegisterFunction(name string, function Function) {
